@@ -1611,6 +1611,8 @@ pub fn type_table() -> Vec<TypeEntry> {
     v.last_mut().unwrap().values = vals_arr::<[u8; 3]>;
     entry!(v, "[u8;24]", [u8; 24]);
     // more elements than an 8- / 16-bit element counter holds
+    entry!(v, "Box<Option<u8>>", Box<Option<u8>>);
+    entry!(v, "Box<Option<String>>", Box<Option<String>>);
     entry!(v, "[u8;256]", [u8; 256]);
     entry!(v, "[u8;65536]", [u8; 65536]);
     entry!(v, "[String;3]", [String; 3], 24);
